@@ -467,6 +467,11 @@ class Terms:
         args = tuple(T(a) for a in e.args)
         kwargs = tuple((k.arg, T(k.value)) for k in e.keywords)
         fn = T(e.func)
+        # "..{}..".format(a) is the f-string f"..{a}.." (plain fields only); a conditional template is a conditional result
+        if fn[0] == "attr" and fn[2] == "format" and not any(a[0] == "star" for a in args) and not any(k is None for k, _v in kwargs):
+            ft = _format_term(fn[1], args, dict(kwargs))
+            if ft is not None:
+                return ft
         # identity wrappers and codec round-trips
         if fn[0] == "glob" and fn[1] in IDENTITY_WRAPPERS and len(args) == 1 and not kwargs:
             a0 = args[0]
@@ -648,6 +653,47 @@ def _binop(op, l, r) -> tuple:
         except Exception:
             pass
     return ("binop", name, l, r)
+
+
+def _format_term(tmpl, args, kwargs):
+    """<template>.format(args) as an ('fstr', parts) term, or None when the template is not a constant with plain fields"""
+    if tmpl[0] == "ifexp":
+        a, b = _format_term(tmpl[2], args, kwargs), _format_term(tmpl[3], args, kwargs)
+        return ("ifexp", tmpl[1], a, b) if a is not None and b is not None else None
+    if tmpl[0] == "phi":
+        alts = [_format_term(x, args, kwargs) for x in tmpl[1]]
+        return ("phi", tuple(alts)) if all(x is not None for x in alts) else None
+    if not (tmpl[0] == "const" and isinstance(tmpl[1], str)):
+        return None
+    import string
+
+    parts, auto = [], 0
+    try:
+        parsed = list(string.Formatter().parse(tmpl[1]))
+    except ValueError:
+        return None
+    for lit, field, spec, conv in parsed:
+        if lit:
+            parts.append(("const", lit))
+        if field is None:
+            continue
+        if spec or conv:
+            return None
+        if field == "":
+            if auto is None or auto >= len(args):
+                return None
+            v, auto = args[auto], auto + 1
+        elif field.isdigit():
+            if auto or int(field) >= len(args):
+                return None
+            auto = None
+            v = args[int(field)]
+        elif field.isidentifier() and field in kwargs:
+            v = kwargs[field]
+        else:
+            return None
+        parts.append(("fmt", v, -1, None))
+    return ("fstr", tuple(parts))
 
 
 _ZERO_FIELD = {1: "B", 2: "H", 4: "L", 8: "Q"}
